@@ -206,3 +206,70 @@ def word_cls_rule(m, rid):
             r.fail("WORDClsBase|%s|%s|%s" % (args[0], args[2], sorted(kw)), "WORDClsBase.match(%r, N, %r%s) gives %r, expected %r"
                    % (args[0], args[2], "".join(", %s=%s" % kv for kv in sorted(kw.items())), got, want), m.loc(f))
     return r
+
+
+def string_rules(m, rid):
+    r = RuleResult(rid, "StringBase/STRINGBase/NumberBase/KeywordValueBase.match decided as tables: keywords are upper-cased, free text and kind "
+                        "parameters keep their spelling, '=' splits at the first occurrence only")
+    r.floor = 25
+    pats = m.snap["patterns"]
+
+    def rx(name):
+        ent = pats.get(name)
+        if ent is None:
+            raise KeyError(name)
+        return re.compile(ent["compiled_pattern"], ent["compiled_flags"])
+    fs = {n: m.method(m.key(n, UTILS), "match") for n in ("StringBase", "STRINGBase", "NumberBase", "KeywordValueBase")}
+    if any(v is None for v in fs.values()):
+        r.error("a string engine vanished: %s" % [k for k, v in fs.items() if v is None])
+        return r
+    ev = PE.Evaluator({})
+    # recursion: the engines call themselves by class name
+    class Proxy(PE.Obj):
+        pass
+    for n, f in fs.items():
+        ev.g[n] = PE.Obj({}, {})
+    # pureeval resolves `X.match(...)` only on Obj fields: give each engine object a callable field
+    for n, f in fs.items():
+        ev.g[n].fields["match"] = (lambda ff: (lambda *a, **k: ev.run_function(ff.node, list(a), k)))(f)
+    ev.g["InternalError"] = "InternalError"
+    c = ctor("V")
+    try:
+        cases = [
+            ("StringBase", ("abc", "abc"), {}, ("abc",)), ("StringBase", ("abc", "ABC"), {}, None), ("StringBase", ("abc", "abcd"), {}, None),
+            ("StringBase", (["a", "b"], "b"), {}, ("b",)), ("StringBase", (rx("abs_name"), "My_Var"), {}, ("My_Var",)),
+            ("StringBase", (rx("abs_name"), "1x"), {}, None),
+            ("STRINGBase", ("CONTAINS", "contains"), {}, ("CONTAINS",)), ("STRINGBase", ("CONTAINS", "Contains"), {}, ("CONTAINS",)),
+            ("STRINGBase", ("CONTAINS", "contain"), {}, None), ("STRINGBase", ("CONTAINS", "containsx"), {}, None),
+            ("STRINGBase", (["PUBLIC", "PRIVATE"], "private"), {}, ("PRIVATE",)), ("STRINGBase", ("X", None), {}, None),
+            ("STRINGBase", (rx("abs_intrinsic_type_name"), "logical"), {}, ("LOGICAL",)),
+            ("STRINGBase", (rx("abs_intrinsic_type_name"), "logic"), {}, None),
+            ("NumberBase", (rx("abs_int_literal_constant_named"), "12"), {}, ("12", None)),
+            ("NumberBase", (rx("abs_int_literal_constant_named"), "12_8"), {}, ("12", "8")),
+            ("NumberBase", (rx("abs_int_literal_constant_named"), "12_Long"), {}, ("12", "Long")),
+            ("NumberBase", (rx("abs_int_literal_constant_named"), "1 2"), {}, ("12", None)),
+            ("NumberBase", (rx("abs_int_literal_constant_named"), "12x"), {}, None),
+            ("NumberBase", (rx("abs_real_literal_constant_named"), "1.0e-3_dp"), {}, ("1.0E-3", "dp")),
+            ("NumberBase", (rx("abs_real_literal_constant_named"), "1.5d0"), {}, ("1.5D0", None)),
+            ("KeywordValueBase", ("UNIT", c, "unit=6"), {"upper_lhs": True}, ("UNIT", Node("V", "6"))),
+            ("KeywordValueBase", ("UNIT", c, "unit = 6"), {"upper_lhs": True}, ("UNIT", Node("V", "6"))),
+            ("KeywordValueBase", ("UNIT", c, "6"), {"require_lhs": False}, (None, Node("V", "6"))),
+            ("KeywordValueBase", ("UNIT", c, "6"), {}, None),
+            ("KeywordValueBase", ("FMT", c, "fmt='(a=b)'"), {"upper_lhs": True}, ("FMT", Node("V", "'(a=b)'"))),
+            ("KeywordValueBase", ("FMT", c, "unit=6"), {"upper_lhs": True}, None),
+            ("KeywordValueBase", (ctor("K"), c, "a=b=c"), {}, (Node("K", "a"), Node("V", "b=c"))),
+            ("KeywordValueBase", (ctor("K"), c, "a="), {}, None),
+        ]
+    except KeyError as err:
+        r.error("pattern %s vanished" % err)
+        return r
+    for eng, args, kw, want in cases:
+        r.instances += 1
+        got = run(ev, fs[eng], list(args), kw)
+        ok = (not isinstance(got, PE.PyRaise)) and got == want
+        shown = tuple(a.pattern if hasattr(a, "pattern") else a for a in args)
+        r.ob(ok, "%s.match%r %s -> %r" % (eng, shown[:1] + shown[-1:], kw or "", got))
+        if not ok:
+            r.fail("%s|%r|%s" % (eng, shown[-1], sorted(kw)), "%s.match(%s%s) gives %r, expected %r" % (
+                eng, ", ".join(repr(a)[:30] for a in shown), "".join(", %s=%s" % kv for kv in sorted(kw.items())), got, want), m.loc(fs[eng]))
+    return r
